@@ -524,8 +524,10 @@ def explore_result_fate(fn, origin_blk, start_blk, dest_key, dest_ty_ix, io_vari
 
 
 class Deps:
-    def __init__(self, fn):
+    def __init__(self, fn, blocks=None):
+        """blocks: restrict to statements of these blocks (e.g. one arm of a branch plus the common prefix)"""
         self.fn = fn
+        self.blocks = blocks
         self.direct = defaultdict(set)  # local -> set of tokens
         self._build()
         self._closure = {}
@@ -558,7 +560,7 @@ class Deps:
         fn = self.fn
         for i in range(1, fn.argc + 1):
             self.direct[i].add(('param', i))
-        for bi in fn.reachable():
+        for bi in (fn.reachable() if self.blocks is None else [x for x in fn.reachable() if x in self.blocks]):
             b = fn.blocks[bi]
             for s in b['stmts']:
                 if s['k'] != 'assign':
